@@ -720,7 +720,7 @@ Definition w_stmt : stmt :=
      st_disp := Some DReject;
      st_act := {| ac_nexthop := None; ac_comm := None; ac_local_pref := None; ac_med := None;
                   ac_prepend := None; ac_ext := None; ac_large := None; ac_origin := None |} |}.
-Definition w_asg : assignment := {| as_disp := DAccept; as_pols := [{| p_name := 1; p_stmts := [w_stmt] |}] |}.
+Definition w_asg : assignment := {| as_disp := DAccept; as_pols := [{| p_name := 1; p_stmts := [w_stmt] |}]; as_needs_rpki := false |}.
 Definition w_ctx : ctx :=
   {| x_src := {| s_is_local := false; s_remote_addr := IP4 1; s_local_addr := IP4 2; s_remote_asn := 65001; s_local_asn := 65000 |};
      x_net := NV4 167772160 8; x_orig_nh := None; x_confed := false; x_local := IP4 2; x_peer := IP4 1 |}.
@@ -757,7 +757,7 @@ Definition ex_s2 : stmt :=
                   CSet 1 MAny (SComm [CExact 4259840100]); CLocalPrefEq 200];
      st_disp := Some DReject; st_act := no_act |}.
 Definition ex_asg : assignment :=
-  {| as_disp := DAccept; as_pols := [{| p_name := 1; p_stmts := [ex_s1] |}; {| p_name := 2; p_stmts := [ex_s2] |}] |}.
+  {| as_disp := DAccept; as_pols := [{| p_name := 1; p_stmts := [ex_s1] |}; {| p_name := 2; p_stmts := [ex_s2] |}]; as_needs_rpki := false |}.
 Definition ex_ctx : ctx :=
   {| x_src := x_src w_ctx; x_net := NV4 167838208 24; x_orig_nh := None; x_confed := false; x_local := IP4 2; x_peer := IP4 1 |}.
 Definition ex_route : rstate :=
